@@ -2,8 +2,9 @@
 //! configured. Random and boundary histories; RP walk + exactness oracle at
 //! every caught-up point.
 
-use kvh::hist::{self, Gen, Op, Outcome, Profile};
+use kvh::hist::{self, Op, Outcome, Profile};
 use kvh::oracle::{self, catch_up};
+use kvh::runner::{self, Ctx, Issue, Monitor, RunCfg};
 use kvh::util::{Args, Report, Rng};
 use kvh::world::{World, WorldCfg};
 use serde_json::json;
@@ -73,104 +74,43 @@ fn boundary_script(which: u64) -> Vec<Op> {
     }
 }
 
-struct Hist {
-    cfg_desc: serde_json::Value,
-    ops: Vec<(Op, Outcome)>,
+struct C01Monitor {
+    observe_every: usize,
+    last_hash: u64,
+    prev_mode: Option<bool>,
 }
 
-/// Runs one history. Returns false if a violation ended it.
-fn run_history(
-    r: &mut Report, args: &Args, idx: u64, seed: u64, replay: Option<Vec<Op>>,
-) -> bool {
-    let mut rng = Rng::new(seed);
-    let agg = CONFIGS[(rng.below(CONFIGS.len() as u64)) as usize];
-    let rrdp_interval = rng.below(2) as u32;
-    let memory = rng.chance(1, 4);
-    let depth4 = rng.chance(1, 2);
-    let boundary = if idx < 4 { Some(idx) }
-        else if rng.chance(1, 3) { Some(rng.below(4)) } else { None };
-    let n_random = if args.thorough() { rng.range(25, 60) }
-        else { rng.range(12, 25) };
-    let observe_every = if idx < 4 { 1 } else { 3 };
+impl Monitor for C01Monitor {
+    fn after_op(
+        &mut self, w: &mut World, op: &Op, _outcome: &Outcome, ctx: &Ctx,
+        r: &mut Report,
+    ) -> Vec<Issue> {
+        let i = ctx.op_idx;
+        let observe_now = i + 1 == ctx.n_setup || i + 1 == ctx.total
+            || (i >= ctx.n_setup
+                && (i - ctx.n_setup) % self.observe_every
+                    == self.observe_every - 1);
+        if !observe_now { return vec![] }
 
-    let mut cfg = WorldCfg::new(args.work.join(format!("h{idx}")));
-    cfg.aggregate = agg;
-    cfg.rrdp_interval = rrdp_interval;
-    if memory { cfg.memory = Some(seed) }
-    let mut h = Hist {
-        cfg_desc: json!({"aggregate": [agg.0, agg.1],
-            "rrdp_interval": rrdp_interval, "memory": memory,
-            "depth4": depth4, "boundary": boundary, "seed": seed}),
-        ops: vec![],
-    };
-    r.distinct("configs", format!("{agg:?}/{rrdp_interval}/{memory}/{depth4}"));
-    let mut w = World::create(cfg);
-    let mut gen_ = Gen::new(seed ^ 0xabcdef, Profile::general());
-    let mut last_hash = 0u64;
-    let mut prev_mode: Option<bool> = None;
-
-    let mut script: Vec<Op> = hist::standard_forest(depth4);
-    let n_setup = script.len();
-    if let Some(b) = boundary { script.extend(boundary_script(b)) }
-    let scripted = script.len();
-    let total = match &replay {
-        Some(ops) => ops.len(),
-        None => scripted + n_random as usize,
-    };
-
-    for i in 0..total {
-        let op = match &replay {
-            Some(ops) => ops[i].clone(),
-            None if i < scripted => script[i].clone(),
-            None => gen_.next_op(&w),
-        };
-        kvh::util::mark_inflight(&args.out, &json!({
-            "what": "c01 op", "op": op, "exit_is_violation": false
-        }));
-        let outcome = hist::apply(&mut w, &op);
-        r.count(&format!("op_{}", op.kind()), 1);
-        match &outcome {
-            Outcome::Ok => r.count("ops_ok", 1),
-            Outcome::Refused(_) => r.count("ops_refused", 1),
-            Outcome::Panicked(p) => {
-                h.ops.push((op.clone(), outcome.clone()));
-                r.violation(
-                    &format!("panic@{}", op.kind()),
-                    &format!("operation panicked: {p}"),
-                    witness(&h),
-                );
-                return false
-            }
-        }
-        h.ops.push((op.clone(), outcome));
-
-        let observe_now = i + 1 == n_setup || i + 1 == total
-            || (i >= n_setup && (i - n_setup) % observe_every == observe_every - 1);
-        if !observe_now { continue }
-
-        let (caught_up, rounds, fatal) = catch_up(&mut w, 10);
-        for f in fatal {
-            r.violation(
-                &format!("daemon-would-exit@{}", op.kind()),
-                &f, witness(&h),
-            );
-            return false
+        let (caught_up, rounds, fatal) = catch_up(w, 10);
+        if let Some(f) = fatal.first() {
+            return vec![(format!("daemon-would-exit@{}", op.kind()), f.clone())]
         }
         if !caught_up {
             r.inconclusive(format!(
-                "history {idx}: did not catch up within 10 rounds after {}",
-                op.kind()
+                "history {}: did not catch up within 10 rounds after {}",
+                ctx.hist_idx, op.kind()
             ));
             r.count("not_caught_up", 1);
-            return true
+            return vec![]
         }
         r.max("catch_up_rounds", rounds as u64);
-        let Some(obs) = oracle::observe(&w) else {
+        let Some(obs) = oracle::observe(w) else {
             r.inconclusive("no TA certificate");
-            return true
+            return vec![]
         };
         r.eval();
-        let (issues, stats) = oracle::c01_check(&w, &obs);
+        let (issues, stats) = oracle::c01_check(w, &obs);
         r.count("vrps_validated", obs.view.vrps().len() as u64);
         r.count("aspas_validated", obs.view.aspas().len() as u64);
         r.count("router_keys_validated", obs.view.router_keys().len() as u64);
@@ -181,58 +121,67 @@ fn run_history(
         r.max("cas_reached", obs.view.cas.len() as u64);
         let payloads = obs.view.vrps().len() + obs.view.aspas().len()
             + obs.view.router_keys().len();
-        if payloads > 0 && obs.state_hash != last_hash {
+        if payloads > 0 && obs.state_hash != self.last_hash {
             r.nontrivial(format!("{:016x}", obs.state_hash));
         }
-        last_hash = obs.state_hash;
-        // aggregation mode switches: more than one VRP in one ROA object
+        self.last_hash = obs.state_hash;
+        // aggregation mode: more than one VRP in one ROA object
         let aggregated = obs.view.objects.iter().filter(|o| o.kind == "roa")
             .count() < obs.view.vrps().len();
-        if let Some(p) = prev_mode {
+        if let Some(p) = self.prev_mode {
             if p != aggregated { r.count("mode_switches", 1) }
         }
-        prev_mode = Some(aggregated);
-        if !issues.is_empty() {
-            for (sig, detail) in issues.iter().take(3) {
-                r.violation(
-                    &format!("{sig}@{}", op.kind()), detail, witness(&h),
-                );
-            }
-            return false
-        }
+        self.prev_mode = Some(aggregated);
+        issues.into_iter().map(|(sig, d)| {
+            (format!("{sig}@{}", op.kind()), d)
+        }).collect()
     }
-    if r.samples.len() < 3 {
-        r.sample(json!({
-            "config": h.cfg_desc,
-            "ops": h.ops.iter().skip(n_setup).take(12)
-                .map(|(o, out)| json!({"op": o, "outcome": out}))
-                .collect::<Vec<_>>(),
-        }));
-    }
-    let _ = std::fs::remove_dir_all(args.work.join(format!("h{idx}")));
-    true
 }
 
-fn witness(h: &Hist) -> serde_json::Value {
-    json!({
-        "config": h.cfg_desc,
-        "ops": h.ops.iter().map(|(o, _)| o).collect::<Vec<_>>(),
-        "outcomes": h.ops.iter().map(|(_, o)| o).collect::<Vec<_>>(),
-    })
+/// Runs one history. Returns false if a violation ended it.
+fn run_history(
+    r: &mut Report, args: &Args, idx: u64, seed: u64, replay: Option<Vec<Op>>,
+    replay_steps: Option<Vec<Option<String>>>,
+) -> bool {
+    let mut rng = Rng::new(seed);
+    let agg = CONFIGS[(rng.below(CONFIGS.len() as u64)) as usize];
+    let rrdp_interval = rng.below(2) as u32;
+    let memory = rng.chance(1, 4);
+    let depth4 = rng.chance(1, 2);
+    let boundary = if idx < 4 { Some(idx) }
+        else if rng.chance(1, 3) { Some(rng.below(4)) } else { None };
+    let n_random = if args.thorough() { rng.range(25, 60) }
+        else { rng.range(12, 25) };
+
+    let mut cfg = WorldCfg::new(args.work.join(format!("h{idx}")));
+    cfg.aggregate = agg;
+    cfg.rrdp_interval = rrdp_interval;
+    if memory { cfg.memory = Some(seed) }
+    r.distinct("configs", format!("{agg:?}/{rrdp_interval}/{memory}/{depth4}"));
+    let mut script: Vec<Op> = hist::standard_forest(depth4);
+    let n_setup = script.len();
+    if let Some(b) = boundary { script.extend(boundary_script(b)) }
+    let mut m = C01Monitor {
+        observe_every: if idx < 4 { 1 } else { 3 },
+        last_hash: 0, prev_mode: None,
+    };
+    let res = runner::run(r, args, RunCfg {
+        idx, seed, world: cfg,
+        desc: json!({"aggregate": [agg.0, agg.1],
+            "rrdp_interval": rrdp_interval, "memory": memory,
+            "depth4": depth4, "boundary": boundary, "seed": seed}),
+        script, n_setup, n_random: n_random as usize,
+        profile: Profile::general(), replay, replay_steps, keep_dir: false,
+    }, &mut m);
+    res.clean
 }
 
 fn main() {
     let args = Args::parse();
     let mut r = Report::new("C01", &args);
     if let Some(path) = &args.replay {
-        let doc: serde_json::Value = serde_json::from_slice(
-            &std::fs::read(path).expect("read replay")
-        ).expect("parse replay");
-        let ops: Vec<Op> = serde_json::from_value(
-            doc["witness"]["ops"].clone()
-        ).expect("ops");
-        let seed = doc["witness"]["config"]["seed"].as_u64().unwrap_or(1);
-        let ok = run_history(&mut r, &args, 99, seed, Some(ops));
+        let (ops, seed, _, steps) = runner::load_replay(path);
+        let ok = run_history(&mut r, &args, 99, seed, Some(ops), steps);
         println!("replay: {}", if ok { "no violation" } else { "violation reproduced" });
         r.write();
         return
@@ -243,8 +192,7 @@ fn main() {
         let hist_idx = if idx == 0 && args.shard < 4 { args.shard }
             else { 4 + idx };
         let seed = args.shard_seed().wrapping_mul(7919).wrapping_add(hist_idx);
-        run_history(&mut r, &args, hist_idx, seed, None);
-        r.count("histories", 1);
+        run_history(&mut r, &args, hist_idx, seed, None, None);
         idx += 1;
         if !r.within_budget() { break }
         let _ = std::fs::write(
